@@ -59,6 +59,7 @@ type FuncContract struct {
 	ParamNames []string
 	ResNames   []string
 	Lemmas     []*Clause
+	GhostAx    []*Clause // recurrence axioms of uninterpreted ghost functions (must be definitional; listed as assumptions)
 	File       string
 	Line       int
 	Uses       int
@@ -205,7 +206,7 @@ func (cs *Contracts) load(path string) error {
 				return fmt.Errorf("%s:%d: %v", path, l.line, err)
 			}
 			cur.Ghosts = append(cur.Ghosts, sd)
-		case "requires", "ensures", "invariant", "decreases", "assigns", "panics", "lemma":
+		case "requires", "ensures", "invariant", "decreases", "assigns", "panics", "lemma", "ghostaxiom":
 			if cur == nil {
 				return fmt.Errorf("%s:%d: clause outside func", path, l.line)
 			}
@@ -235,6 +236,8 @@ func (cs *Contracts) load(path string) error {
 				cur.Ensures = append(cur.Ensures, c)
 			case "lemma":
 				cur.Lemmas = append(cur.Lemmas, c)
+			case "ghostaxiom":
+				cur.GhostAx = append(cur.GhostAx, c)
 			case "panics":
 				cur.Panics = c
 			case "invariant":
